@@ -1,5 +1,6 @@
 import DryocVerif.Model.Protected
 import DryocVerif.Proofs.ProtectedRel
+import DryocVerif.Proofs.GenProtected
 /-
 C15 — the page-aligned allocator never hands back memory that still holds data: every release
 event `(size, nonzero)` observed by the harness has `nonzero = 0`, for every token history, every
@@ -65,5 +66,11 @@ example :
     (runState { cNoWipe with n := 20, wipe := true } (State.init fun _ => true)
       [⟨.new, 0⟩, ⟨.fill 0xa5, 0⟩, ⟨.resize 4, 0⟩, ⟨.drop, 0⟩]).m.rel = [(20, 0)] := by
   decide
+
+/-- tie to the source: `PageAlignedAllocator::deallocate` as translated wipes `layout.size()` bytes starting at the
+allocation's pointer, before the block is handed to `free` -/
+theorem translated_deallocate_wipe (cap : Nat) :
+    Gen.Protected.deallocate_wipe_len cap = cap ∧ Gen.Protected.deallocate_wipes_before_free = true :=
+  Proofs.GenProtected.deallocate_wipe cap
 
 end DryocVerif.Properties.C15
